@@ -44,7 +44,7 @@ def sym_tx(name, n_in, n_out, n_cov, pc, kind=None, exclude_kinds=(), n_sigs=0):
     return tx, terms
 
 
-def sym_state(pc, stakes=None, name='st'):
+def sym_state(pc, stakes=None, name='st', prior_txs=0):
     """arbitrary UnsealedState over lazily sampled trees"""
     net, netd = S.sym_netid(name + '_network', pc)
     h = z3.BitVec(name + '_height', 64)
@@ -56,7 +56,15 @@ def sym_state(pc, stakes=None, name='st'):
     coins = Agg('CoinMapping', [Opaque('Tree', M.TreeModel('coins', (), COIN_TYPES))])
     history = Agg('SmtMapping', [Opaque('Tree', M.TreeModel('history', (), HIST_TYPES)), UNIT, UNIT])
     pools = Agg('SmtMapping', [Opaque('Tree', M.TreeModel('pools', (), POOL_TYPES)), UNIT, UNIT])
-    txset = Agg('TransactionSet', [Opaque('Map', MapM(ordered=True))])
+    # transactions already applied at this height by earlier calls (a block is usually built call by call): arbitrary, bounded
+    tm = MapM(ordered=True)
+    for i in range(prior_txs):
+        ptx, _ = sym_tx('%s_prior%d' % (name, i), 1, 1, 1, pc)
+        ph = z3.BitVec('%s_prior%d_txhash' % (name, i), 256)
+        terms['prior%d_txhash' % i] = ph
+        terms['prior%d_present' % i] = z3.If(z3.Bool('%s_prior%d_present' % (name, i)), bv(1, 8), bv(0, 8))
+        tm = tm.insert(S.txhash(ph), ptx, z3.Bool('%s_prior%d_present' % (name, i)))
+    txset = Agg('TransactionSet', [Opaque('Map', tm)])
     stakeset = Agg('StakeSet', [Opaque('Map', MapM(stakes or ()))])
     state = S.unsealed(network=net, height=S.blockheight(h), history=history, coins=coins, transactions=txset,
                        fee_pool=S.coinvalue(fp), fee_multiplier=mult, tips=S.coinvalue(tips), dosc_speed=speed,
@@ -161,7 +169,7 @@ def cdh_covhash(cdh):
 
 
 def run_batch(chk, it, shapes, kinds=None, exclude_kinds=('DoscMint',), entry='apply_tx_batch', stakes=None,
-              min_height=1, orders=None, distinct_txs=True):
+              min_height=1, orders=None, distinct_txs=True, prior_txs=0):
     """shapes: list of (n_in, n_out, n_cov) per transaction.  Executes UnsealedState::apply_tx_batch on an arbitrary
     state satisfying I-HIST / I-COUNT.  Returns a BatchRun."""
     from mirsym.interp import G
@@ -169,7 +177,7 @@ def run_batch(chk, it, shapes, kinds=None, exclude_kinds=('DoscMint',), entry='a
     if distinct_txs:
         G.atomic_domains = {'single:Transaction'}
     st = State()
-    state, sterms = sym_state(st.pc, stakes=stakes)
+    state, sterms = sym_state(st.pc, stakes=stakes, prior_txs=prior_txs)
     install_history_invariant(it, sterms['height'])
     install_coin_invariants(it, cdh_covhash)
     st.pc.append(z3.UGE(sterms['height'], min_height))
